@@ -61,6 +61,7 @@ class Ctx:
         self.inputs: dict[str, z3.ExprRef] = {}  # named input variables (for cex extraction)
         self.notes: dict = {}
         self.truncated = False
+        self.var_bounds: dict = {}  # name of a fresh integer input -> (lo, hi) as declared (None = unbounded side)
 
     # -- solver ---------------------------------------------------------------------
     def check(self, *extra):
@@ -562,6 +563,8 @@ def fresh_int(name: str, lo=None, hi=None, register: bool = True) -> SInt:
         c.solver.add(v >= lo)
     if hi is not None:
         c.solver.add(v <= hi)
+    if lo is not None and hi is not None and not is_sym(lo) and not is_sym(hi):
+        c.var_bounds[name] = (int(lo), int(hi))
     return SInt(v)
 
 
